@@ -8,6 +8,11 @@ from .common import MachineryError, watchdog
 INVS = ['RoundTrip', 'Fixpoint', 'SignedRejected', 'FormShape']
 
 
+# what the symbol "u" of Dewies.tla stands for: characters that are not decimal digits (not category Nd) and not '.', whose
+# compatibility normalisation is one -- a parser that normalises its input would take them for an amount
+LOOKALIKES = ['\uff0e', '\u00b9', '\u00b2', '\u2460', '\u2488', '\ufe52', '\u2024', '\u2081', '\u2474', '\u24f5']
+
+
 def _norm(text):
     """value-preserving normal form of a decimal string (so that only the VALUE and the plain-decimal
     shape are judged, not the choice among equivalent spellings)"""
@@ -78,6 +83,8 @@ def run(ctx):
                 ctx.sample({'dewies_to_lbc': n, 'returned': got, 'spec': expect})
         else:
             text = ''.join(c['text'])
+            if 'u' in text:
+                text = text.replace('u', LOOKALIKES[npz % len(LOOKALIKES)])
             npz += 1
             ctx.count(('parse', text), nontrivial=len(text) >= 3)
             try:
